@@ -90,8 +90,28 @@ def case_strategy(draw):
     }
 
 
+@st.composite
+def many_labels_case(draw):
+    """A group of 24 labels spread over a wide range next to a small group (numpy picks another np.isin algorithm for
+    many, widely spread test values), on small maps holding labels of both groups."""
+    big = list(range(1, 13)) + [draw(st.sampled_from([2001, 40001])) + i for i in range(12)]
+    if draw(st.booleans()):
+        big = list(draw(st.permutations(big)))
+    small = [20, 21]
+    shape = draw(gen.shapes((1, 2), max1=16, max2=8))
+    pool = big + small
+    pred = np.array(draw(st.lists(st.sampled_from([0, 0] + pool), min_size=int(np.prod(shape)), max_size=int(np.prod(shape))))).reshape(shape)
+    ref = np.where(np.array(draw(st.lists(st.booleans(), min_size=pred.size, max_size=pred.size))).reshape(shape), pred, np.roll(pred, 1, axis=-1))
+    it = draw(st.sampled_from(["SEMANTIC", "UNMATCHED_INSTANCE", "MATCHED_INSTANCE"]))
+    groups = [{"name": "big", "labels": big, "kind": draw(st.sampled_from(["plain", "merge"]))}, {"name": "small", "labels": small, "kind": "plain"}]
+    return {"pred": pred.tolist(), "ref": ref.tolist(), "dtype": draw(st.sampled_from(["uint16", "uint32"])), "input": it,
+            "backend": None, "matcher": None if it == "MATCHED_INSTANCE" else {"kind": "naive", "metric": "IOU", "thr": 0.5, "m2o": False},
+            "decision": None, "groups": groups, "target": draw(st.integers(0, 1)), "other_pred": np.zeros(shape, dtype=int).tolist(), "other_ref": np.zeros(shape, dtype=int).tolist(),
+            "undefined": None, "layout": "C", "primes": []}
+
+
 def searches(tier):
-    return [("groups", case_strategy(), BUDGET[tier])]
+    return [("groups", case_strategy(), BUDGET[tier]), ("many_labels", many_labels_case(), max(20, BUDGET[tier] // 8))]
 
 
 def restrict(a, g):
@@ -141,6 +161,18 @@ def check(case, stats):
         got = meta.observe(out[g["name"].lower()][0])
         obs[g["name"]] = got
         want = reference_result(case, g, pred, ref)
+        if g["kind"] in ("single", "merge_single") and case["input"] != "MATCHED_INSTANCE":
+            # "treated as one already-matched instance": stated directly, not through another library call. With a
+            # decision metric the evaluator documents threshold 0 for such a group: every overlap score meets it, a
+            # distance only when it is exactly 0.
+            gp, gr = restrict(pred, g) != 0, restrict(ref, g) != 0
+            if gp.any() and gr.any():
+                dec = case.get("decision")
+                exp_tp = 1 if not dec or dec[0] in ("IOU", "DSC") or np.array_equal(gp, gr) else 0
+                d_ = got["dict"]
+                if (d_.get("tp"), d_.get("fp"), d_.get("fn")) != (exp_tp, 1 - exp_tp, 1 - exp_tp):
+                    raise Violation(f"single-instance group {g['name']!r} present on both sides (decision {dec}): tp/fp/fn = {d_.get('tp')}/{d_.get('fp')}/{d_.get('fn')}, one already-matched instance gives {exp_tp}/{1 - exp_tp}/{1 - exp_tp}")
+                stats.count("single_instance_groups_checked_directly")
         msg = meta.diff(want, got)
         if msg:
             raise Violation(f"group {g['name']!r} ({g['kind']}, labels {g['labels']}): grouped result differs from the group-less evaluation of the restricted arrays: {msg}")
